@@ -19,7 +19,7 @@ TECHNIQUE = ('deviation-bounded breadth-first enumeration of renderings (spellin
 LEVEL_TEXT = ('4 layouts x 6 structures (1-3 Twp/Rge groups, 1-3 section groups: single / and-list / range) rendered with every '
               'combination of <= 2 (quick) / <= 3 (thorough) deviations from the default rendering over 11 rendering dimensions '
               '(10 Twp/Rge spellings, 4 direction mixes, 4 number classes, 3 section-number classes, 8 section keywords, 5 and- and '
-              '9 through-connectors (incl. capitalised words), 3 desc-section connectors, 4 separators, 10 block rotations, 5 colon spacings). The oracle knows the intended '
+              '9 through-connectors (incl. capitalised words), 3 desc-section connectors, 10 separators (comma, semicolon, blank, tab, LF, CRLF, paragraph break), 11 block rotations (incl. a block that starts with a number), 5 colon spacings). The oracle knows the intended '
               'tracts, layout and the absence of error flags; the pretty_desc() round trip is a second differential leg.')
 LEVEL_NOTE = ('Trusted: mc/gen.py renderer (its alphabet only contains spellings the repository documents; range "2" only with an '
               'explicit R). Renderings with more deviations than the bound are not explored.')
